@@ -7,11 +7,13 @@ ASSUMPTIONS = [
     "the generator is driven through a scripted subclass of cryptorandom.SHA256 (harness/tape.py): requests are answered lazily and logged; the same answers are replayed for the keep_dist twin",
     "data are exactly representable (small integers times group-size products times powers of two, optional large offsets), so named float statistics are exact; 't'-type statistics are black boxes checked through dist",
     "SHA-256 / Mersenne-Twister output is assumed uniform; condition.argsort() is an oracle input of the model"]
-oracle = AR.filtered_oracle(['p-not-from-dist', 'keepdist-differs', 'keepdist-raises', 'keepdist-draws', 'p-range', 'dist-length', 'tail', 'observed-stat', 'observed-not-data', 'partial-p', 'raw'])
+oracle = AR.filtered_oracle(['p-not-from-dist', 'keepdist-differs', 'keepdist-raises', 'keepdist-draws', 'p-range', 'dist-length', 'tail', 'observed-stat', 'observed-not-data', 'partial-p', 'raw',
+                            # sim_npc / westfall_young with in_place=False must leave the data as given for the next call
+                            'in-place-false-mutates'])
 
 
 def cases(tier, rng, dist):
-    return AR.cases(tier, rng, dist, extra=('npc', 'wy'))
+    return AR.cases(tier, rng, dist, extra=('npc', 'wy', 'exp'))
 
 
 def generated(tier):
